@@ -337,7 +337,7 @@ def extra_fields(fr, n_known):
 def struct_pairs(fields, vals, fr):
     pairs = []
     for (n, d), v in zip(fields, vals):
-        if d[0] == "opt" and v is None and fr.p(fr.drop_opt): continue
+        if d[0] == "opt" and v is None and (n.endswith("_s") or fr.p(fr.drop_opt)): continue     # `_s`: skip_serializing_if = Option::is_none
         nb = n.encode()
         pairs.append((fr.text(nb) if False else head(3, len(nb)) + nb, encode(d, v, fr)))
     pairs += extra_fields(fr, len(fields))
